@@ -184,6 +184,15 @@ func runQ(c qCase, fails *[]cq.ImplFailure) qCase {
 				p[k] = 0xEE
 			}
 			h.SequenceNumber, h.Timestamp, h.Marker = 0xDEAD, 0xDEADBEEF, !h.Marker
+			for k := range h.CSRC { // slices inside the header are the caller's too
+				h.CSRC[k] = 0xEEEEEEEE
+			}
+			if ext := h.GetExtension(1); len(ext) > 0 {
+				for k := range ext {
+					ext[k] = 0xEE
+				}
+				_ = h.SetExtension(1, []byte{0xEE, 0xEE})
+			}
 			if len(c.Rates) > 0 && w == 0 && i%7 == 3 {
 				setRate(c.Rates[(i/7)%len(c.Rates)])
 			}
